@@ -26,6 +26,7 @@ import (
 	"encoding/json"
 	"fmt"
 	"go/types"
+	"io"
 	"math/rand"
 	"os"
 	"runtime"
@@ -157,16 +158,34 @@ type vNode struct {
 // "syncfail" steps: the commit of filterPersist's ingress transaction meets a storage fault.
 type vFaultDB struct {
 	xkv.DB
-	armed atomic.Bool
-	fired atomic.Int64
+	armed     atomic.Bool
+	fired     atomic.Int64
+	readAt    atomic.Int64 // > 0: in the NEXT transaction the readAt-th digest read fails
+	readFired atomic.Int64
 }
 
 type vFaultTx struct {
 	xkv.Tx
-	db *vFaultDB
+	db     *vFaultDB
+	failAt int64
+	ndig   int64
 }
 
-func (d *vFaultDB) OpenTx() xkv.Tx { return &vFaultTx{Tx: d.DB.OpenTx(), db: d} }
+func (d *vFaultDB) OpenTx() xkv.Tx {
+	return &vFaultTx{Tx: d.DB.OpenTx(), db: d, failAt: d.readAt.Swap(0)}
+}
+
+// Get: a transient storage fault (not "not found") on one digest read of this transaction.
+func (t *vFaultTx) Get(ctx context.Context, key []byte, opts ...any) ([]byte, io.Closer, error) {
+	if t.failAt > 0 && strings.HasPrefix(string(key), digestPrefix) {
+		t.ndig++
+		if t.ndig == t.failAt {
+			t.db.readFired.Add(1)
+			return nil, nil, fmt.Errorf("verif: injected transient storage fault on read")
+		}
+	}
+	return t.Tx.Get(ctx, key, opts...)
+}
 
 func (t *vFaultTx) Commit(ctx context.Context, opts ...any) error {
 	if t.db.armed.CompareAndSwap(true, false) {
@@ -396,6 +415,10 @@ type vStep struct {
 	Res  string          `json:"res"`
 	Ver  int64           `json:"ver"`
 	To   int             `json:"to"`
+	// syncread: 1-based position of the operation whose digest read fails
+	FailAt int64 `json:"failat"`
+	// init: attach a subscriber whose handler blocks until the end of the history
+	Stall bool `json:"stall"`
 }
 
 type vBad struct {
@@ -519,6 +542,36 @@ func (g *vIngress) replay(hi int, h []vStep, finals *sync.Map) *vBad {
 	rv := func(a int64) int64 { return base + a }
 	subs := []*vSub{g.p0, g.f0}
 	var late []*vSub
+	// a subscriber that does NOT keep up: its handler blocks until the end of the history, its
+	// queue (x/go/observe async: 64) overflows and it loses notifications; the others must not
+	var stalled *vSub
+	gate := make(chan struct{})
+	released := false
+	release := func() {
+		if stalled != nil && !released {
+			released = true
+			close(gate)
+			stalled.stop() // drains what is still queued, then disconnects
+		}
+	}
+	defer release()
+	if h[0].Stall {
+		stalled = &vSub{name: "stalled", kind: "p"}
+		st := stalled
+		st.stop = host.db.OnChange(func(_ context.Context, r xkv.TxReader) {
+			var b []vNote
+			for c := range r {
+				b = append(b, vNote{Key: string(c.Key), Val: string(c.Value), Var: vVariant(c.Variant)})
+			}
+			st.mu.Lock()
+			st.log = append(st.log, b)
+			st.total.Add(int64(len(b)))
+			st.mu.Unlock()
+			<-gate
+		})
+		g.stats["stall_histories"]++
+	}
+	var accBatches []string // what a subscriber that keeps up is shown, request by request
 	defer func() {
 		for _, s := range late {
 			s.stop()
@@ -556,6 +609,11 @@ func (g *vIngress) replay(hi int, h []vStep, finals *sync.Map) *vBad {
 	}
 	delivered := map[string]bool{}
 	seenOnce := map[string]bool{}
+	bestStored := map[string]vDig{}
+	prevEng := map[string]vDig{}
+	for _, k := range g.keys {
+		prevEng[pre+k] = vAbsent
+	}
 	bad := func(step int, kind, exp, act string) *vBad {
 		b := &vBad{I: hi, R: "mismatch", Step: step, Kind: kind, Exp: exp, Act: act}
 		if g.hard != nil && !g.hard[kind] {
@@ -623,19 +681,24 @@ func (g *vIngress) replay(hi int, h []vStep, finals *sync.Map) *vBad {
 			late = append(late, host.subscribe("p1", "p"), host.subscribe("f1", "f"))
 			g.stats["subs"]++
 			continue
-		case "sync", "syncfail":
+		case "sync", "syncfail", "syncread":
 			// syncfail: the commit of this request's ingress transaction fails (storage fault)
 			fail := st.A == "syncfail"
 			req := TxRequest{Sender: node.Key(st.From)}
-			for _, o := range st.Ops {
+			for j, o := range st.Ops {
 				req.Operations = append(req.Operations, vRealOp(pre+o.K, o, rv(o.Ver)))
-				if !fail {
+				if !fail && !(st.A == "syncread" && int64(j) == st.FailAt-1) {
 					delivered[o.String()] = true
 				}
 			}
 			fired0 := host.flt.fired.Load()
+			rfired0 := host.flt.readFired.Load()
 			if fail {
 				host.flt.armed.Store(true)
+			}
+			if st.A == "syncread" {
+				// the digest read of the operation at position failat meets a transient fault
+				host.flt.readAt.Store(st.FailAt)
 			}
 			if _, err := w.opNet.UnaryClient().Send(w.ctx, vAddr(host.id), req); err != nil {
 				return &vBad{I: hi, R: "inconclusive", Step: si, Note: "send: " + err.Error()}
@@ -671,6 +734,12 @@ func (g *vIngress) replay(hi int, h []vStep, finals *sync.Map) *vBad {
 					fmt.Sprintf("%d notified, %d fed back", nraw, nfb)); b != nil {
 					return b
 				}
+			}
+			if st.A == "syncread" {
+				if host.flt.readAt.Swap(0) != 0 || host.flt.readFired.Load() != rfired0+1 {
+					return &vBad{I: hi, R: "inconclusive", Step: si, Note: "the injected read fault was not consumed by the request"}
+				}
+				g.stats["syncreads"]++
 			}
 			if !fail {
 				g.stats["syncs"]++
@@ -765,6 +834,33 @@ func (g *vIngress) replay(hi int, h []vStep, finals *sync.Map) *vBad {
 				lastShown[n.Key] = n
 			}
 		}
+		for _, b := range rb {
+			for _, n := range b {
+				d := vDig{Ver: n.Ver, Lh: n.Lh, Var: n.Var}
+				if best, ok := bestStored[n.Key]; ok && vNewer(best, d) {
+					if b := bad(si, "stale", "no operation is shown that lost to a newer one already stored",
+						fmt.Sprintf("%s v%d/l%d/%s shown, %+v was stored before", strings.TrimPrefix(n.Key, pre), n.Ver-base, n.Lh, n.Var, best)); b != nil {
+						return b
+					}
+				}
+			}
+		}
+		changed := map[string]vDig{}
+		for _, k := range g.keys {
+			d, _, _ := vProject(host.eng, pre+k)
+			if d != prevEng[pre+k] && d.Var != "none" {
+				changed[pre+k] = d
+			}
+			prevEng[pre+k] = d
+			if d.Var != "none" {
+				if best, ok := bestStored[pre+k]; !ok || vNewer(d, best) {
+					bestStored[pre+k] = d
+				}
+			}
+		}
+		if len(st.P) > 0 {
+			accBatches = append(accBatches, want(st.P))
+		}
 		for key, n := range lastShown {
 			if d, _, _ := vProject(host.eng, key); d.Ver != n.Ver || d.Lh != n.Lh || d.Var != n.Var {
 				kind := "unstored"
@@ -811,6 +907,28 @@ func (g *vIngress) replay(hi int, h []vStep, finals *sync.Map) *vBad {
 				vWait(func() bool { return int64(m.s.nBatches()-m.n) >= nexp }, 2*time.Second)
 			}
 			got := vNoFence(m.s.batches(m.n))
+			// property level (C13): a subscriber that keeps up is shown every operation that changed
+			// the stored state (the filtered one: unless the host leads it)
+			for key, d := range changed {
+				if m.s.kind == "f" && d.Lh == host.id {
+					continue
+				}
+				_, val, _ := vProject(host.eng, key)
+				found := false
+				for _, b := range got {
+					for _, n := range b {
+						if n.Key == key && n.Var == d.Var && (d.Var == "del" || n.Val == val) {
+							found = true
+						}
+					}
+				}
+				if !found {
+					if b := bad(si, "missed", "a subscriber that keeps up is shown every operation that changed the stored state",
+						fmt.Sprintf("%s: not shown %s %+v", m.s.name, strings.TrimPrefix(key, pre), d)); b != nil {
+						return b
+					}
+				}
+			}
 			for _, b := range got {
 				for _, n := range b {
 					if n.Var != "set" {
@@ -836,6 +954,32 @@ func (g *vIngress) replay(hi int, h []vStep, finals *sync.Map) *vBad {
 		}
 		if pinned != nil {
 			return pinned
+		}
+	}
+	if stalled != nil {
+		// the stalled subscriber: a subsequence of what the others were shown, nothing twice
+		release()
+		got := stalled.batches(0)
+		j := 0
+		for _, b := range got {
+			if len(b) > 0 && vIsFence(b[0].Key) {
+				continue
+			}
+			one := vNotesOf([][]vNote{b})
+			for j < len(accBatches) && accBatches[j] != one {
+				j++
+			}
+			if j == len(accBatches) {
+				if b := bad(len(h), "notify-p", "a subsequence of the accepted requests", "stalled: "+one+" out of order, repeated or never accepted"); b != nil {
+					return b
+				}
+				break
+			}
+			j++
+		}
+		g.stats["stall_accepted"] += len(accBatches)
+		if n := len(accBatches) - len(got); n > 0 {
+			g.stats["stall_lost"] += n
 		}
 	}
 	// barrier: a fence travels behind everything still in the pipeline (accepted -> every
